@@ -276,6 +276,7 @@ type stepOut struct {
 	mutates    bool   // the accessor is a writer (whether or not this call changed anything)
 	note       string // class of the invocation: ok | oob-error | at-limit-error | skipped:<why>
 	changed    bool
+	readback   bool // a set row whose paired getter was read back on the live state
 }
 
 func trunc(s string, n int) string {
@@ -548,6 +549,22 @@ judgeState:
 	out.changed = !eqVal(e.stateT, pre, post)
 	if f := e.judgeState(lib, pre, post, targets); f != nil {
 		return fail(f.Sig, "%s", f.Msg)
+	}
+	// read back through the paired getter (same scope, same target) on the live, written state
+	if leaf.Kind == "set" && out.note == "ok" && len(args) > 0 {
+		for _, g := range e.tab.ByScop[leaf.Scope] {
+			if g.Kind == "get" && g.Target == leaf.Target && g.On(e.fork) {
+				gch := &Chain{Rows: append(append([]*Row{}, ch.Rows[:len(ch.Rows)-1]...), g)}
+				ro := e.step(lib, post, gch, args[:len(args)-1])
+				if ro.fail != nil {
+					ro.fail.Msg = "read-back after " + leaf.Method + " on the same live state: " + ro.fail.Msg
+					out.fail = ro.fail
+					return out
+				}
+				out.readback = true
+				break
+			}
+		}
 	}
 	return out
 }
